@@ -98,18 +98,11 @@ class Balance(Flow):
         st = self._try_of_handler.get(handler)
         if st is None or self.cg is None:
             return [state]
-        # only handlers broad enough to swallow an arbitrary failure of the expansion below matter;
-        # `except ValueError:` around int(expander(x)) catches the conversion, not a failed expansion
-        types = []
-        if handler.type is None:
-            types = ["BaseException"]
-        elif isinstance(handler.type, ast.Tuple):
-            types = [unparse(x) for x in handler.type.elts]
-        else:
-            types = [unparse(handler.type)]
-        broad = {"BaseException", "Exception", "lupa.LuaError", "LuaError", "RecursionError", "RuntimeError", "MemoryError"}
-        if not (set(types) & broad):
-            return [state]
+        # every handler counts, whatever class it names: the nested expansion below runs
+        # user hooks and database lookups, so an exception of *any* class can arrive here
+        # with entries pushed by the abandoned inner frames (seed C16-2B: a ValueError
+        # from a template_fn hook, a UnicodeEncodeError from the page lookup).  A handler
+        # that always re-raises never reaches a normal exit and so discharges itself.
         reach = False
         for b in st.body:
             for callee in self.cg.callees_in(self.qual, b):
